@@ -1,4 +1,4 @@
-import A2Verif.Lemmas.C15
+import A2Verif.Lemmas.C15Data
 /-!
 # C15 — Disassembly reassembles to the identical bytes
 
@@ -64,29 +64,68 @@ theorem pure_code_reassembles (cfg : Cfg) (ver : Ver) (org : Nat) (bytes : List 
 example : pureCode ⟨.p65816, true, true, false⟩ 9 [0x54, 0x01, 0x02, 0x80, 0xFE, 0xAF, 0x56, 0x34, 0x12] = true := by
   decide +kernel
 
-/-- **Never different bytes, arbitrary input — partial.**  For an arbitrary byte string every emitted line that
-is an instruction, a `HEX` line standing for an out-of-range branch, or a `DFB` assembles to exactly the bytes of
-its span.  MISSING: the same statement for the lines produced by `try_data_run` (`DS`, `LUP`/`HEX` patterns,
-`ASC`, `DCI`): it needs the content invariants of the scan (run is uniform / periodic / printable), which are
-not proved; those lines are covered by `dasm_covers_every_byte_once` (extent) and by the harness (content:
-oracle `line-reassembles-to-its-span` on the real code and the `rt` correspondence with this model).
-FULL: `∀ bytes, asmAll … (dasm … bytes) = .ok b → b = bytes`. -/
-theorem never_different_bytes_partial (cfg : Cfg) (ver : Ver) (addr : Nat) (rest : List Nat)
-    (hc : compat cfg.proc ver = true) (hne : rest ≠ []) (hb : ∀ x ∈ rest, x < 256)
-    (hcase : (isInstruction cfg rest).isSome = true ∨ tryDataRun addr rest = none) :
-    lineBytes Quirks.fixed ⟨cfg.proc, ver, cfg.m8, cfg.x8⟩ addr (step Quirks.fixed cfg addr rest).1
-      = .ok (rest.take (step Quirks.fixed cfg addr rest).2) := by
-  rcases rest with _ | ⟨op, tl⟩
-  · exact absurd rfl hne
-  · cases hi : isInstruction cfg (op :: tl) with
-    | some i => exact instruction_reassembles_exactly cfg ver addr op tl i hc hb hi
-    | none =>
-      rcases hcase with h | h
-      · simp [hi] at h
-      · have hop : op < 256 := hb op (by simp)
-        simp [step, hi, h, lineBytes, Nat.mod_eq_of_lt hop]
+/-- **Content of every data run.**  Whatever `try_data_run` emits for a stretch that is not an instruction —
+`DS n,$v` for a fill, `HEX`/`LUP n`+`HEX`+`--^` for a period-2 or period-4 pattern, `ASC '…'`/`ASC "…"` with or
+without the `,00` tail, `DCI` with either delimiter — if the assembler accepts the line (it refuses `LUP`, and a `DS`
+count above `$FFFF`), the bytes it emits are exactly the bytes of the run.  Uses the meaning of the five scan
+counters (`ScanSem`: fill is uniform, string characters are in the printable set with the right high bit) and the
+transcription of `push_strings` on the node text *with both delimiters* (`signStep`, `strCore`). -/
+theorem data_run_content (q : Quirks) (c : ACfg) (addr : Nat) (rest : List Nat) (r : Line × Nat)
+    (hb : ∀ x ∈ rest, x < 256) (h : tryDataRun addr rest = some r)
+    (b : List Nat) (hok : lineBytes q c addr r.1 = .ok b) : b = rest.take r.2 :=
+  tryDataRun_content q c addr rest r hb h b hok
 
-example : tryDataRun 0x300 [0x02, 0x60] = none ∧ isInstruction ⟨.p6502, true, true, false⟩ [0x02, 0x60] = none := by
+example : tryDataRun 0x300 [0xC8, 0xC5, 0xCC, 0xCC, 0xCF, 0x00, 0x60]
+    = some (.asc 0x300 true [0x48, 0x45, 0x4C, 0x4C, 0x4F] true, 6) := by decide +kernel
+example : tryDataRun 0x300 [0x48, 0x45, 0x4C, 0x4C, 0xCF, 0x02]
+    = some (.dci 0x300 false [0x48, 0x45, 0x4C, 0x4C, 0x4F], 5) := by decide +kernel
+example : tryDataRun 0x300 [0x02, 0x02, 0x02, 0x60] = some (.ds 0x300 3 0x02, 3) := by decide +kernel
+example : tryDataRun 0x300 [0x02, 0x03, 0x02, 0x03, 0x02] = some (.hex 0x300 2 [0x02, 0x03], 4) := by decide +kernel
+
+/-- **Strings are printable** (backs the text-layer parameter for `ASC`/`DCI`): the characters the disassembler
+puts between the delimiters are letters, digits, blank, comma or period (7 bit) — never a delimiter (`'` `"` `&` `/`),
+a control character or `;` — so the rendered operand is one `dstring` token followed at most by `,00`. -/
+theorem string_lines_printable (addr : Nat) (rest : List Nat) (r : Line × Nat)
+    (h : tryDataRun addr rest = some r) : ∀ ch ∈ lineChars r.1, probablyString ch 0 = true :=
+  tryDataRun_printable addr rest r h
+
+/-- **A refused `LUP` still stands for its span.**  The spot assembler answers `CannotAssemble` for `LUP`; read as
+Merlin reads it (body repeated `r` times) the group `LUP r` / `HEX body` / `--^` that `try_data_run` emits for a
+period-2 or period-4 pattern is exactly the bytes of the run (so nothing is lost or duplicated by the refusal). -/
+theorem lup_expansion_exact (addr : Nat) (rest : List Nat) (a reps : Nat) (body : List Nat) (k : Nat)
+    (h : tryDataRun addr rest = some (.hex a reps body, k)) : lupBytes reps body = rest.take k :=
+  tryDataRun_lup addr rest a reps body k h
+
+example : lupBytes 2 [0x02, 0x03] = [0x02, 0x03, 0x02, 0x03] := by decide
+
+/-- **Never different bytes, arbitrary input, one line** ("either reproduces the input bytes exactly or reports
+that it cannot assemble a construct; it never yields different bytes").  At any point of any byte string, for
+every processor, assembler variant that can declare it, MX and brk: if the assembler model accepts the line the
+disassembler model emits there — instruction, out-of-range branch as `HEX`, data run of any kind, `DFB` — its
+bytes are exactly the bytes the line stands for. -/
+theorem never_different_bytes (cfg : Cfg) (ver : Ver) (addr : Nat) (rest : List Nat)
+    (hc : compat cfg.proc ver = true) (hne : rest ≠ []) (hb : ∀ x ∈ rest, x < 256) (b : List Nat)
+    (hok : lineBytes Quirks.fixed ⟨cfg.proc, ver, cfg.m8, cfg.x8⟩ addr (step Quirks.fixed cfg addr rest).1 = .ok b) :
+    b = rest.take (step Quirks.fixed cfg addr rest).2 :=
+  step_content cfg ver addr rest hc hne hb b hok
+
+/-- **Never different bytes, whole program.**  For ANY byte string, origin, processor, assembler variant that can
+declare it, MX and brk: if assembling the whole disassembly (line after line, program counter threaded as the
+spot assembler does) succeeds, the result is the input; the only other outcome is an explicit refusal. -/
+theorem reassembly_never_differs (cfg : Cfg) (ver : Ver) (org : Nat) (bytes : List Nat)
+    (hc : compat cfg.proc ver = true) (hb : ∀ x ∈ bytes, x < 256) (b : List Nat)
+    (hok : asmAll Quirks.fixed ⟨cfg.proc, ver, cfg.m8, cfg.x8⟩ org (dasm Quirks.fixed cfg org bytes) = .ok b) :
+    b = bytes :=
+  go_never_differs cfg ver hc bytes.length org bytes (Nat.le_refl _) hb b hok
+
+/-- a mixture of code, a negative-ASCII string with `,00` tail, a fill and a stray byte: accepted and identical -/
+example : okIs (asmAll Quirks.fixed ⟨.p6502, .m8, true, true⟩ 0x300
+    (dasm Quirks.fixed ⟨.p6502, true, true, false⟩ 0x300 [0xA9, 0x01, 0x02, 0x02, 0x02, 0xC8, 0xC5, 0xCC, 0x00, 0x02]))
+    [0xA9, 0x01, 0x02, 0x02, 0x02, 0xC8, 0xC5, 0xCC, 0x00, 0x02] = true := by decide +kernel
+
+/-- a period-2 pattern becomes `LUP`, which the spot assembler refuses: an explicit error, not different bytes -/
+example : okIs (asmAll Quirks.fixed ⟨.p6502, .m8, true, true⟩ 0x300
+    (dasm Quirks.fixed ⟨.p6502, true, true, false⟩ 0x300 [0x02, 0x03, 0x02, 0x03])) [0x02, 0x03, 0x02, 0x03] = false := by
   decide +kernel
 
 /-! ## The unrepaired code violates the property (witnesses replayed on the real code by the harness) -/
